@@ -110,6 +110,19 @@ func genC15(tier string, rng *rand.Rand, shard, nshards int, emit emitter) {
 	if tier == "thorough" {
 		count = 60000
 	}
+	if tier == "sample" {
+		count = 300 // segmented streams for the properties that look at the same code from another side (C16, C18)
+	} else {
+		// through server.Serve: what one connection leaves behind must not reach another one
+		for c := 0; c < 32; c++ {
+			if c%nshards != shard {
+				continue
+			}
+			for _, t := range srvTemplatesC15 {
+				emit(fmt.Sprintf("srv %05b %s", c, t))
+			}
+		}
+	}
 	for i := 0; i < count; i++ {
 		if !mine(i, shard, nshards) {
 			continue
@@ -196,6 +209,8 @@ func genC16(tier string, rng *rand.Rand, shard, nshards int, emit emitter) {
 			emit("srv " + cfg + " " + t)
 		}
 	}
+	// requests that arrive in pieces, pipelined requests (judged like C15: the same single reply, nothing for a part)
+	genC15("sample", rng, shard, nshards, emit)
 	i := 0
 	// every function code 1..127 once with each handler
 	for fc := 1; fc <= 255; fc++ {
